@@ -74,7 +74,7 @@ ALSO = {
  "C03": " Also decided: seven routes through the real Unmarshal (*any, *any with duplicates allowed, map[string]any, []any, UnmarshalRead, a named empty interface, *any with a declining UnmarshalFromFunc) agree with the reference tree, and literals overflowing float64 at every position are an error on all of them.",
  "C04": " Also decided: every int64/uint64 as number, quoted number and map key; byte arrays/slices under each v1 representation option alone; maps keyed by *string/*int8; every int64 time.Duration through the four decimal units (kernels and typed members with format tags) and non-negative ones through ISO 8601; unix-seconds timestamps with 0 <= sec < 2^40 (kernel and typed member).",
  "C05": " Also decided: json.UnmarshalRead equals json.Unmarshal for first values ending around the 64/128/256-byte buffer boundaries with a symbolic tail, over readers that fill the buffer or trickle, the reader reporting empty-buffer polling as non-termination; UnmarshalDecode of two values over such a reader with the second extending past the buffered data, with and without the v1 pre-validation option.",
- "C07": " Also decided: typed json.MarshalWrite / json.MarshalEncode deliver exactly json.Marshal's bytes for 13 value shapes (empty containers at top level, omitempty retractions around the pooled buffer's flush threshold) on both writer kinds, and only a prefix after a failed first write.",
+ "C07": " Also decided: typed json.MarshalWrite / json.MarshalEncode deliver exactly json.Marshal's bytes for 15 value shapes (empty containers at top level incl. behind a pointer to any, omitempty retractions around the pooled buffer's flush threshold) on both writer kinds, and only a prefix after a failed first write.",
  "C08": " Also decided: a duplicated (possibly escaped) name one level down is rejected by default and accepted with AllowDuplicateNames for eight kinds of target at that position (struct, map, any, raw value, skipped unknown member, embedded raw and map fallbacks, pointer to map); map targets pre-populated or not.",
  "C09": " Also decided: pointer-receiver methods at seven addressable/non-addressable positions (direct and promoted fields); three further recorded differences with exact regions.",
  "C10": " Also decided: the ECMA-262 layout of AppendFloat (exponent form exactly when 0<|x|<1e-6 or |x|>=1e21, signed exponent without leading zeros, -0 kept) for every finite float64 and float32, thresholds in the SMT floating-point theory, strconv's digit generation replaced by a shape stub.",
@@ -83,7 +83,8 @@ ALSO = {
  "C14": " Also decided: null zeroes each of 13 destination kinds and keeps the other fields; arrays shorter than the Go array (JSON array or base64) are refused by default and zero the tail under UnmarshalArrayFromAnyLength.",
  "C15": " A thirteenth type with three levels of embedding was added.",
  "C16": " Also decided: escaped member names on the value path; names written as raw values with duplicates allowed; SemanticError offset/pointer for one conversion error at a solver-chosen slot.",
- "C19": " Also decided: each of 24 boolean options passed as false / true-then-false / v1 defaults followed by v2 defaults gives the same Marshal bytes and Unmarshal value as no option; the nil argument class of WithMarshalers/WithUnmarshalers; option restoration on the nil-embedded-pointer error path.",
+ "C18": " Also decided: the package-level scratch pools of the Deterministic paths carry nothing across calls (a nested deterministic map marshals identically before and after an unrelated, possibly failing call with an embedded map fallback).",
+ "C19": " Also decided: each of 24 boolean options passed as false / true-then-false / v1 defaults followed by v2 defaults gives the same Marshal bytes and Unmarshal value as no option; the nil argument class of WithMarshalers/WithUnmarshalers; option restoration on the nil-embedded-pointer error path and after a failing string-tagged member on the marshal side.",
  "C20": " Also decided: cycles running only through pointers/interfaces (marshal side; the unmarshal side is a known finding); a coder used after a typed call with a differing per-call AllowDuplicateNames failed mid-object never panics; under the v1 error semantics every array/object element is offered to its unmarshaler at most once (termination of the element loops).",
 }
 NOTE = {
